@@ -98,8 +98,8 @@ def main(argv=None):
             idx = [i for i, o in enumerate(obs) if o.name == rec["obligation"]]
         if not idx:
             print("unknown obligation", rec["obligation"]); return 3
-        with ctx.Pool(1, maxtasksperchild=1) as pool:
-            (_, _, _, out, err) = pool.map(_task, [("replay", idx[0], {"vals": rec["vals"], "key": rec.get("key")})])[0]
+        with ctx.Pool(2, maxtasksperchild=1) as pool:
+            (_, _, _, out, err) = pool.map(_task, [("replay", idx[0], {"vals": rec["vals"], "key": rec.get("key")})], chunksize=1)[0]
         if err:
             print(err); return 3
         print("replay outcome:", out)
@@ -110,7 +110,7 @@ def main(argv=None):
 
     results = [None] * len(obs)
     errors = []
-    with ctx.Pool(min(a.jobs, max(1, len(obs))), maxtasksperchild=1) as pool:
+    with ctx.Pool(max(2, min(a.jobs, len(obs))), maxtasksperchild=1) as pool:
         for kind, i, extra, r, err in pool.imap_unordered(_task, [("run", i, None) for i in range(len(obs))]):
             if err:
                 errors.append((obs[i].name, err))
@@ -124,7 +124,7 @@ def main(argv=None):
                 rtasks.append(("replay", i, {"vals": f["vals"], "key": key, "what": "cex"}))
             if r.get("samples") and obs[i].kind == "e1":
                 rtasks.append(("replay", i, {"vals": r["samples"][0], "key": None, "what": "sample"}))
-        routs = pool.map(_task, rtasks) if rtasks else []
+        routs = pool.map(_task, rtasks, chunksize=1) if rtasks else []
 
     known = load_known()
     known_keys = {k["key"]: k for k in known if k.get("status") == "known" and k.get("property") == prop}
@@ -152,7 +152,7 @@ def main(argv=None):
                 if outcome == "hang" and key == "hang":
                     pass
                 else:
-                    nonrepro.append((ob.name, key, extra["vals"], outcome)); continue
+                    nonrepro.append((ob.name, key + " :: " + str(results[i]["fails"].get(key, {}).get("detail", ""))[:600], extra["vals"], outcome)); continue
             else:
                 key = rkey if rkey is not None else key
         if key in known_keys:
